@@ -1044,7 +1044,8 @@ theorem coded_diag_precision_correct (k V : Nat) (hk : 0 < k) (cinv : Arr → Op
 
 /-- **PROPERTY for the translated `GMRFVectorModel.__init__`** (with the translated `_covariance_matrix_inverse`,
 `n_components=None`, exact data): on every simple graph or the edgeless one, both modes, both bias conventions, any
-`n_samples`, any `argsort` keeping numpy's promise — the sparse and the dense constructor succeed together; the two
+`n_samples`, any `argsort` keeping numpy's promise — whenever the dense constructor returns, so does the sparse one (the
+converse holds as well: both run the same inversions, `vecInit_sparse_eq` / `build_eq_blocks`, but is not stated here); the two
 stored precisions have the same entries; the matrix is symmetric, positive semi-definite and couples two vertices only
 if the graph joins them; the mean is the sample mean -/
 theorem coded_constructor_correct (m : Mode) (k V : Nat) (X : Mat) (es : List (Nat × Nat)) (bias : Bool)
@@ -1088,13 +1089,15 @@ theorem coded_constructor_correct (m : Mode) (k V : Nat) (X : Mat) (es : List (N
 /-- **PROPERTY for the translated `_mahalanobis_distance`** (mean subtracted, no square root): for `m` samples the
 routine returns, for either storage, the distances `d_i = (x_i − μ)ᵀ P (x_i − μ)` (as a number when `m = 1`) — so the
 value does not depend on the storage flag (only on the entries of the precision), entry `i` of a batched query is the
-single query of row `i`, every distance is non-negative for a positive semi-definite precision and zero at the mean -/
+single query of row `i`, every distance is non-negative for a positive semi-definite precision, and the distance of a row
+that equals the mean is zero -/
 theorem coded_mahalanobis_correct (sqrt : Rat → Rat) (M : VecModel) (S : Mat) (mm n : Nat) (hm : 0 < mm) (hn : 0 < n)
     (hS : IsTab mm n S) (hP : M.precision.n = n) :
     ∃ d : List Rat, mahalanobisCoreCoded sqrt M S true false = outOf d ∧ d.length = mm ∧
       (∀ i, i < mm → d.getD i 0 = qf n M.precision.ent (fun I => ent (subMean S M.mean_vector n) i I)) ∧
       (∀ i I, i < mm → I < n → ent (subMean S M.mean_vector n) i I = ent S i I - M.mean_vector.getD I 0) ∧
-      ((∀ x, 0 ≤ qf n M.precision.ent x) → ∀ i, i < mm → 0 ≤ d.getD i 0) := by
+      ((∀ x, 0 ≤ qf n M.precision.ent x) → ∀ i, i < mm → 0 ≤ d.getD i 0) ∧
+      (∀ i, i < mm → (∀ I, I < n → ent S i I = M.mean_vector.getD I 0) → d.getD i 0 = 0) := by
   rw [mahalanobisCore_eq sqrt M S true mm n hm hn hS hP]
   simp only [if_true]
   have hlen : (subMean S M.mean_vector n).length = mm := by rw [subMean_length, hS.length]
@@ -1108,13 +1111,22 @@ theorem coded_mahalanobis_correct (sqrt : Rat → Rat) (M : VecModel) (S : Mat) 
       exact mahalDense_eq_qf n _ _ i (by rw [hlen]; exact hi)
     · simp only [if_true]
       exact mahalSparse_eq_qf n _ _ i (by rw [hlen]; exact hi)
-  refine ⟨_, rfl, ?_, hvals, ?_, ?_⟩
+  refine ⟨_, rfl, ?_, hvals, ?_, ?_, ?_⟩
   · cases M.sparse <;> simp [mahalSparse, mahalDense, hlen]
   · intro i I hi hI
     exact ent_subMean S _ n i I (by rw [hS.length]; exact hi) hI
   · intro hpsd i hi
     rw [hvals i hi]
     exact hpsd _
+  · intro i hi hmean
+    rw [hvals i hi]
+    have : qf n M.precision.ent (fun I => ent (subMean S M.mean_vector n) i I) = qf n M.precision.ent (fun _ => 0) := by
+      apply qf_congr n _ _ _ _ (fun _ _ _ _ => rfl)
+      intro I hI
+      rw [ent_subMean S _ n i I (by rw [hS.length]; exact hi) hI, hmean I hI]
+      simp
+    rw [this]
+    simp [qf_eq]
 
 /-- the object level as coded: `GMRFModel.__init__` vectorises the samples (`as_matrix`), takes `n_samples` from the
 data and hands every option on under its own name — so `coded_constructor_correct` applies to `GMRFModel` as well -/
